@@ -3,6 +3,7 @@ package world
 import (
 	"fmt"
 	"runtime/debug"
+	"strings"
 	"time"
 
 	"github.com/cosmos/cosmos-sdk/client"
@@ -183,6 +184,25 @@ type EnvB struct {
 	lastBlockEvents []abci.Event
 	lastEnd         []abci.Event
 	AppHashes       [][]byte
+	// Obs is the observation log used by the determinism check: per transaction code/gas/events/data, per block
+	// EndBlock events, AppHash and BeginBlock events, in order.
+	Obs []string
+}
+
+func fmtEvents(evs []abci.Event) string {
+	var b strings.Builder
+	for _, e := range evs {
+		b.WriteString(e.Type)
+		b.WriteByte('{')
+		for _, a := range e.Attributes {
+			b.Write(a.Key)
+			b.WriteByte('=')
+			b.Write(a.Value)
+			b.WriteByte(';')
+		}
+		b.WriteByte('}')
+	}
+	return b.String()
 }
 
 // NewEnvB begins block 2 through the real ABCI BeginBlock. The World must be fresh (one EnvB per World).
@@ -281,6 +301,7 @@ func (e *EnvB) DeliverSigned(msgs []sdk.Msg, signers []Acct) TxResult {
 		return TxResult{Err: err, Stage: "sign", Code: 1}
 	}
 	r := e.w.App.DeliverTx(abci.RequestDeliverTx{Tx: bz})
+	e.Obs = append(e.Obs, fmt.Sprintf("tx h=%d code=%d gasUsed=%d gasWanted=%d data=%x", e.height, r.Code, r.GasUsed, r.GasWanted, r.Data), "tx-events "+fmtEvents(r.Events))
 	out := TxResult{Code: r.Code, Log: r.Log, GasUsed: r.GasUsed, GasWanted: r.GasWanted, Events: r.Events}
 	if r.Code != 0 {
 		out.Err = fmt.Errorf("code=%d codespace=%s log=%s", r.Code, r.Codespace, r.Log)
@@ -322,11 +343,13 @@ func (e *EnvB) NextBlock(dT time.Duration) (bp *BlockPanic) {
 	phase = "Commit"
 	cr := e.w.App.Commit()
 	e.AppHashes = append(e.AppHashes, cr.Data)
+	e.Obs = append(e.Obs, fmt.Sprintf("endblock-events h=%d %s", e.height, fmtEvents(er.Events)), fmt.Sprintf("apphash h=%d %x", e.height, cr.Data))
 	e.height++
 	e.time = e.time.Add(dT)
 	phase = "BeginBlock"
 	h = e.height
 	br := e.w.App.BeginBlock(e.w.BeginReq(e.w.Header(e.height, e.time)))
+	e.Obs = append(e.Obs, fmt.Sprintf("beginblock-events h=%d %s", e.height, fmtEvents(br.Events)))
 	e.lastBlockEvents = append(append([]abci.Event{}, er.Events...), br.Events...)
 	return nil
 }
@@ -335,6 +358,7 @@ func (e *EnvB) NextBlock(dT time.Duration) (bp *BlockPanic) {
 func (e *EnvB) Finish() []byte {
 	e.w.App.EndBlock(abci.RequestEndBlock{Height: e.height})
 	cr := e.w.App.Commit()
+	e.Obs = append(e.Obs, fmt.Sprintf("apphash h=%d %x", e.height, cr.Data))
 	e.dead = true
 	return cr.Data
 }
